@@ -466,8 +466,12 @@ def analyse_send(ctx, Hr):
 def rule_state(ctx):
     from ..state import per_instance_state
     cls = ctx.repo.cls(FILE, CLS)
+    from ..state import shared_defaults
     n = per_instance_state(ctx, "C05.state", cls)
+    # the enabled flag lives in the stack's property table: that table must be per stack as well
+    n += per_instance_state(ctx, "C05.state", ctx.repo.cls("yowsup/stacks/yowstack.py", "YowStack"))
     ctx.units["C05.state_attrs"] = n
+    shared_defaults(ctx, "C05.state", [FILE, "yowsup/stacks/yowstack.py"])
 
 
 def run(ctx):
